@@ -7,6 +7,7 @@ CONSTANTS MaxN = {maxn}
           Types = {types}
           Vals = {vals}
           MaxHist = {maxh}
+          Full = {full}
           UseKF = {kf}
 {view}
 CONSTRAINT Bound
@@ -36,13 +37,13 @@ def run(ctx):
     q = ctx.quick
     L1, L2, T1, T2 = '{"A"}', '{"A", "B"}', '{"T"}', '{"T", "U"}'
     # design-level self-test / witness: with the frozen-tier deviation the invariants fail
-    ctx.tlc_gen("MC_GraphStore", GEN.format(maxn=2, maxe=2, labels=L1, types=T1, vals='{"v1"}', maxh=5, kf="TRUE",
+    ctx.tlc_gen("MC_GraphStore", GEN.format(maxn=2, maxe=2, labels=L1, types=T1, vals='{"v1"}', maxh=5, full="FALSE", kf="TRUE",
                                             view="VIEW View", emit="", inv=IDEAL_INV), "kf-witness", expect_violation=True, workers=4)
     # transition cover, small alphabet
-    scripts = ctx.tlc_gen("MC_GraphStore", GEN.format(maxn=2, maxe=2, labels=L1, types=T2, vals='{"v1"}', maxh=4 if q else 7, kf="FALSE",
+    scripts = ctx.tlc_gen("MC_GraphStore", GEN.format(maxn=2, maxe=2, labels=L1, types=T2, vals='{"v1"}', maxh=4 if q else 6, full="FALSE", kf="FALSE",
                                                       view="VIEW View", emit="ACTION_CONSTRAINT Emit", inv=IDEAL_INV), "cover", timeout=3000,
                           workers=1 if q else 8)
-    walks = ctx.tlc_gen("MC_GraphStore", GEN.format(maxn=3, maxe=3, labels=L2, types=T2, vals='{"v1", "v2"}', maxh=30, kf="FALSE",
+    walks = ctx.tlc_gen("MC_GraphStore", GEN.format(maxn=3, maxe=3, labels=L2, types=T2, vals='{"v1", "v2"}', maxh=30, full="TRUE", kf="FALSE",
                                                     view="", emit="", inv="SimEmit"), "walks", simulate=(300 if q else 6000, 31), workers=4)
     ctx.assume("ids <= 3; labels {A,B}; types {T,U}; one property key p; stub relationships are created between live nodes only",
                "while a bulk load is open (stub inserted, finish_bulk_load not yet called) the type index and relationships-between "
